@@ -280,3 +280,94 @@ func isEOF(err error) bool {
 	}
 	return false
 }
+
+// HarnessC07ContentType: hostile spellings of the Content-Type: a registered
+// media type with the case of one letter flipped and/or up to four arbitrary
+// bytes appended (parameters such as ";a=b", blanks, a "+codec" suffix).  A
+// request whose Content-Type is not literally in the advertised Accept-Post
+// set must get the bare 415 and never reach user code; whatever the spelling,
+// the handler must not panic.
+//
+//verif:harness property=C07 stubs=json,wire,ctx shard=variant:6
+func HarnessC07ContentType() {
+	variant := nondetChoice("variant", 6)
+	kind, proto := variant/3, variant%3 // kind 0 unary, 1 bidi
+	userCalls := 0
+	opts := []HandlerOption{WithCodec(&stackCodec{}), WithCompressMinBytes(1 << 20)}
+	var handler *Handler
+	if kind == 0 {
+		handler = NewUnaryHandler("/pkg.Svc/Method", func(ctx context.Context, req *Request[[]byte]) (*Response[[]byte], error) {
+			userCalls++
+			out := []byte{1}
+			return NewResponse(&out), nil
+		}, opts...)
+	} else {
+		handler = NewBidiStreamHandler("/pkg.Svc/Method", func(ctx context.Context, s *BidiStream[[]byte, []byte]) error {
+			userCalls++
+			for {
+				if _, err := s.Receive(); err != nil {
+					if isEOF(err) {
+						return nil
+					}
+					return err
+				}
+			}
+		}, opts...)
+	}
+	// the advertised set, from a probe with an unsupported type
+	probe := newRecWriter()
+	handler.ServeHTTP(probe, &http.Request{Method: "POST", ProtoMajor: 2, Header: http.Header{"Content-Type": {"x/y"}}, Body: &faultReader{}})
+	pstatus, ph, _, _ := probe.finish()
+	check(pstatus == 415, "an unsupported Content-Type is answered with 415")
+	advertised := map[string]bool{}
+	ap := ph.Get("Accept-Post")
+	for ap != "" {
+		item := ap
+		if i := indexOf(ap, ", "); i >= 0 {
+			item, ap = ap[:i], ap[i+2:]
+		} else {
+			ap = ""
+		}
+		advertised[item] = true
+	}
+	base := []string{"application/connect+proto", "application/grpc", "application/grpc-web+proto"}[proto]
+	if proto == 0 && kind == 0 {
+		base = "application/proto"
+	}
+	check(advertised[base], "the protocol's own media type is advertised")
+	ctb := []byte(base)
+	if nondetBool("flipCase") {
+		i := nondetInt("flipAt")
+		assume(i >= 0 && i < len(ctb))
+		c := ctb[i]
+		assume(c >= 'a' && c <= 'z')
+		ctb[i] = c - 'a' + 'A'
+	}
+	suffix := nondetString("suffix", bound("ctSuffixLen", 4, 5))
+	ct := string(ctb) + suffix
+	body := []byte{0x41}
+	if !(proto == 0 && kind == 0) {
+		body = refFrame(0, []byte{0x41})
+	}
+	rec := newRecWriter()
+	req := &http.Request{Method: "POST", ProtoMajor: 2, Header: http.Header{"Content-Type": {ct}}, Body: &faultReader{data: body, cut: len(body)}}
+	handler.ServeHTTP(rec, req)
+	status, rh, _, rbody := rec.finish()
+	if !advertised[ct] {
+		check(status == 415, "a Content-Type outside the advertised set gets 415 Unsupported Media Type")
+		check(userCalls == 0, "user code does not run for an unsupported Content-Type")
+		check(len(rbody) == 0, "the 415 response is bare")
+		check(rh.Get("Accept-Post") == ph.Get("Accept-Post"), "the 415 response advertises the supported types")
+	} else {
+		check(status == 200, "an advertised Content-Type is served")
+	}
+}
+
+func indexOf(s, sub string) int {
+	for i := 0; i+len(sub) <= len(s); i++ {
+		if s[i:i+len(sub)] == sub {
+			return i
+		}
+	}
+	return -1
+}
